@@ -12,7 +12,9 @@ TECHNIQUE = ("property-based testing (Hypothesis): token programs generated from
 RULE = ("a case is a program of 1-25 tokens (ordinary / jump / jcc / call / ret / indirect instructions with references "
         "to own labels, module symbols and allowed undefined symbols; global and temporary labels, several in a row and "
         "at the very end; .byte / .zero / .string / .ascii / .long sym+k / .quad sym / .align; section switches) for "
-        "X64 (AT&T and Intel), IA32, ARM64, MIPS32, ELF and PE, trivially_unreachable on and off. Clauses: bytes; "
+        "X64 (AT&T and Intel), IA32, ARM64, MIPS32, ELF and PE, trivially_unreachable on and off; on x86 also instructions "
+        "with two symbolic operands of different widths (displacement + 8/16/32-bit immediate), and undefined names that "
+        "look like temporary labels. Clauses: bytes; "
         "tiling (contiguous, ordered, at most one empty block at the end); every control transfer ends its block with "
         "exactly the edges of its kind, fallthroughs lead to the physically next block; labels become symbols at their "
         "position; .byte-only blocks without incoming edges are data, blocks with instructions are code; each symbolic "
